@@ -24,7 +24,7 @@ CLAIMED = {
     "C05": ("Coq theorems C05_differentiate / C05_outputs_sorted against an abstract iterated partial-derivative operator + "
             "correspondence of differentiate_m with cirkit differentiate inside Coq + autograd oracle on compiled circuits",
             "Machine-checked proof on the semantic model (any order through the abstraction); sampled correspondence and oracle tie it to the code.",
-            "C05_differentiate_real instantiates the abstract derivative with the real partial derivative (Coquelicot; standard-library real-number axioms ClassicalDedekindReals.sig_forall_dec / sig_not_dec, functional_extensionality_dep, Classical_Prop.classic, named in DESIGN.md). That PolynomialDifferential computes the k-th formal derivative is checked per instance; torch autograd trusted as oracle."),
+            "C05_differentiate_executable proves the executable operator differentiate_m value-correct against forward-mode (dual-number) evaluation for every order; C05_differentiate_real instantiates the abstract derivative with the real partial derivative (Coquelicot; standard-library real-number axioms ClassicalDedekindReals.sig_forall_dec / sig_not_dec, functional_extensionality_dep, Classical_Prop.classic, named in DESIGN.md). That PolynomialDifferential computes the k-th formal derivative is checked per instance; torch autograd trusted as oracle."),
     "C06": ("Coq theorems C06_evidence, C06_evidence_scope, C06_concatenate(_nth) + correspondence inside Coq + oracle on compiled circuits under all flags",
             "Machine-checked proof on the semantic model for all circuits and observations; sampled correspondence ties it to the code.", ""),
     "C07": ("Coq theorems C07_conjugate, C07_involutive, C07_real_identity over any semiring endomorphism, instantiated at Gaussian rationals + "
